@@ -141,7 +141,7 @@ int main(void) {
 	/* warm up lazily-created process-wide state (sanitizer background thread) before the baseline */
 	{ pthread_t w; if (0 == __real_pthread_create(&w, NULL, sender_thr_nop, NULL)) pthread_join(w, NULL); }
 	{ struct timespec ts = {0, 2000000}; nanosleep(&ts, NULL); }
-	fd0 = tm_fd_count(); task0 = tm_task_count();
+	fd0 = tm_fd_count_settled(); task0 = tm_task_count();
 	TM_LOG(EV_RES, 0, (uint64_t)fd0, (uint64_t)task0, 0);
 
 	for (i = 0; i < nops && !in.bad; i++) {
@@ -262,7 +262,7 @@ int main(void) {
 	}
 	{ unsigned t; for (t = 0; t < 32; t++) { if (g_reads[t].fd[0] > 0) { close(g_reads[t].fd[0]); close(g_reads[t].fd[1]); } } }
 	{ struct timespec ts = {0, 5000000}; nanosleep(&ts, NULL); }
-	fd1 = tm_fd_count(); task1 = tm_task_count();
+	fd1 = tm_fd_count_settled(); task1 = tm_task_count();
 	TM_LOG(EV_RES, 1, (uint64_t)fd1, (uint64_t)task1, destroyed_ok);
 	if (timeout) TM_LOG(EV_TIMEOUT, 0, 0, 0, 0);
 
